@@ -664,6 +664,7 @@ Array<T>& Array<T>::insert(int k, const T& x)
 	Data* h = &d();
 	int n = h->n;
 	int s = h->s;
+	int j = (&x >= _a && &x < _a + n) ? int(&x - _a) : -1; // x is an element of this array: it moves below
 	if (k == -1)
 		k = n;
 	if (n < s) {}
@@ -683,7 +684,7 @@ Array<T>& Array<T>::insert(int k, const T& x)
 	if (k < n) {
 		memmove((char*)_a + (k + 1) * sizeof(T), (void*)(_a + k), (n - k) * sizeof(T));
 	}
-	asl_construct_copy(_a + k, x);
+	asl_construct_copy(_a + k, j < 0 ? x : _a[j < k ? j : j + 1]);
 	h->n = n+1;
 	return *this;
 }
